@@ -424,11 +424,11 @@ theorem assemble_ok_inv {src : Source} {fix : Bool} {bm : BM} (h : assemble src 
 theorem findSection_mem {ss : List (String × List RLine)} {name : String} {rs : List RLine}
     (h : findSection ss name = some rs) : ∃ n, (n, rs) ∈ ss := by
   unfold findSection at h
-  cases hf : ss.find? (·.1 == name) with
+  cases hf : ss.reverse.find? (·.1 == name) with
   | none => simp [hf] at h
   | some p =>
     simp [hf] at h
-    exact ⟨p.1, by have := List.mem_of_find?_eq_some hf; rw [← h]; exact this⟩
+    exact ⟨p.1, by have := List.mem_reverse.mp (List.mem_of_find?_eq_some hf); rw [← h]; exact this⟩
 
 /-- every processor body of an accepted source comes from a section of the source -/
 theorem body_from_section {src : Source} {fix : Bool} {ss : List (String × List RLine)} {bodies : List (List RLine)}
@@ -466,5 +466,119 @@ theorem assemble_wf {src : Source} {fix : Bool} {bm : BM} (h : assemble src fix 
     refine ⟨?_, wfB_of_WF hwf⟩
     simp only [WfBM.procPorts, hprocs, beq_iff_eq]
     exact range_map_getElem? cps _
+
+
+/-! ### rejection of operands that cannot fit -/
+
+theorem all2_mem_left {α β : Type} {R : α → β → Prop} {l : List α} {ys : List β}
+    (h : All2 R l ys) : ∀ x ∈ l, ∃ y ∈ ys, R x y := by
+  induction h with
+  | nil => intro x hx; cases hx
+  | cons hr _ ih =>
+    intro x hx
+    rcases List.mem_cons.mp hx with rfl | hx
+    · exact ⟨_, List.mem_cons_self, hr⟩
+    · obtain ⟨y, hy, hxy⟩ := ih x hx
+      exact ⟨y, List.mem_cons_of_mem _ hy, hxy⟩
+
+theorem asmAll_rejects {a : Arch} {is : List Instr} {i : Instr} (hi : i ∈ is)
+    (hbad : ∀ w, Encode.asm a i ≠ .ok w) : ∀ ws, asmAll a is ≠ .ok ws := by
+  intro ws h
+  obtain ⟨w, _, hw⟩ := all2_mem_left (asmAll_ok h) i hi
+  exact hbad w hw
+
+/-- a numeric operand survives symbol resolution unchanged, at the same position -/
+theorem resolve_num_at (tbl : List (String × Nat)) (pre post : List Arg) (n : Nat) :
+    (pre ++ Arg.num n :: post).map (resolveArg tbl) =
+      pre.map (resolveArg tbl) ++ Operand.num n :: post.map (resolveArg tbl) := by
+  simp [resolveArg]
+
+/-- C03's `asm_rejects_overflow` lifted to a whole processor body: a line with a number that does
+    not fit its field (immediate ≥ 2^Rsize, ROM address ≥ 2^O with O = neededBits(#lines), …)
+    makes the processor — hence the machine — unassemblable. -/
+theorem mkCP_rejects_overflow {rsize : Nat} {rs : List RLine} {r : RLine} (hr : r ∈ rs)
+    (pre post : List Arg) (n : Nat) (hargs : r.args = pre ++ .num n :: post)
+    (fs : List FieldKind) (f : FieldKind) (hlay : layout r.op = some fs) (hlen : lenientArity r.op = false)
+    (hf : fs[pre.length]? = some f) (hbig : ¬ n < 2 ^ (mkArch rsize rs).width f) :
+    ∀ cp, mkCP rsize rs ≠ .ok cp := by
+  intro cp h
+  unfold mkCP at h
+  cases hws : asmAll (mkArch rsize rs) (resolve rs) with
+  | error e => simp [hws] at h
+  | ok ws =>
+    refine asmAll_rejects (i := ⟨r.op, r.args.map (resolveArg (labelTable rs))⟩) ?_ ?_ ws hws
+    · unfold resolve; exact List.mem_map.mpr ⟨r, hr, rfl⟩
+    · rw [hargs, resolve_num_at]
+      have := BMV.Props.C03.asm_rejects_overflow (mkArch rsize rs) r.op (pre.map (resolveArg (labelTable rs)))
+        (post.map (resolveArg (labelTable rs))) n fs f hlay hlen (by simpa using hf) hbig
+      exact this
+
+theorem assemble_rejects_overflow {src : Source} {fix : Bool} {rs : List RLine}
+    (hbody : ∀ ss, mapE (secPrep fix src) src.sections = .ok ss → ∃ c ∈ src.cps, cpBody ss c = .ok rs)
+    {r : RLine} (hr : r ∈ rs) (pre post : List Arg) (n : Nat) (hargs : r.args = pre ++ .num n :: post)
+    (fs : List FieldKind) (f : FieldKind) (hlay : layout r.op = some fs) (hlen : lenientArity r.op = false)
+    (hf : fs[pre.length]? = some f)
+    (hbig : ∀ rsize, src.rsize = some rsize → ¬ n < 2 ^ (mkArch rsize rs).width f) :
+    ∀ bm, assemble src fix ≠ .ok bm := by
+  intro bm h
+  obtain ⟨rsize, ss, bodies, cps, hrs, _, _, _, hss, hb, _, hc, _⟩ := assemble_ok_inv h
+  obtain ⟨c, hc1, hc2⟩ := hbody ss hss
+  obtain ⟨rs', hrs', hcb⟩ := all2_mem_left (mapE_ok hb) c hc1
+  rw [hc2] at hcb
+  cases hcb
+  obtain ⟨cp, _, hmk⟩ := all2_mem_left (mapE_ok hc) rs hrs'
+  exact mkCP_rejects_overflow hr pre post n hargs fs f hlay hlen hf (hbig rsize hrs) cp hmk
+
+/-! ### `Needed_bits` at the power-of-two boundaries -/
+
+theorem neededBits_spec {n : Nat} (h1 : 1 ≤ n) (h2 : n ≤ 2 ^ 63) :
+    1 ≤ neededBits n ∧ neededBits n ≤ 63 ∧ n ≤ 2 ^ neededBits n ∧ ∀ j, 1 ≤ j → j < neededBits n → 2 ^ j < n := by
+  unfold neededBits
+  simp only [show n > 0 from h1, if_true]
+  unfold leastBits
+  cases hf : (List.range' 1 (64 - 1)).find? (fun b => decide (2 ^ b ≥ n)) with
+  | some b =>
+    obtain ⟨hp, hm, hmin⟩ := List.find?_range'_eq_some.mp hf
+    simp only [decide_eq_true_eq] at hp
+    simp only [List.mem_range'_1] at hm
+    show 1 ≤ b ∧ b ≤ 63 ∧ n ≤ 2 ^ b ∧ ∀ j, 1 ≤ j → j < b → 2 ^ j < n
+    refine ⟨hm.1, by omega, hp, ?_⟩
+    intro j hj1 hj2
+    have := hmin j hj1 hj2
+    simp only [Bool.not_eq_true', decide_eq_false_iff_not] at this
+    omega
+  | none =>
+    have := List.find?_eq_none.mp hf 63 (List.mem_range'.mpr ⟨62, by omega, by omega⟩)
+    simp at this; omega
+
+/-- exactly 2^k items need k bits (the last register / line still has an address) -/
+theorem neededBits_pow2 {k : Nat} (h1 : 1 ≤ k) (h2 : k ≤ 63) : neededBits (2 ^ k) = k := by
+  have hle : 2 ^ k ≤ 2 ^ 63 := Nat.pow_le_pow_right (by omega) h2
+  obtain ⟨a, _, c, d⟩ := neededBits_spec (Nat.one_le_two_pow) hle
+  have h3 : k ≤ neededBits (2 ^ k) := (Nat.pow_le_pow_iff_right (by omega)).mp c
+  by_cases hlt : k < neededBits (2 ^ k)
+  · have := d k h1 hlt; omega
+  · omega
+
+/-- one more than 2^k needs one more bit -/
+theorem neededBits_pow2_succ {k : Nat} (h1 : 1 ≤ k) (h2 : k < 63) : neededBits (2 ^ k + 1) = k + 1 := by
+  have hle : 2 ^ k + 1 ≤ 2 ^ 63 := by
+    have : 2 ^ (k + 1) ≤ 2 ^ 63 := Nat.pow_le_pow_right (by omega) (by omega)
+    have : 2 ^ (k + 1) = 2 * 2 ^ k := by rw [Nat.pow_succ]; omega
+    have : 1 ≤ 2 ^ k := Nat.one_le_two_pow
+    omega
+  obtain ⟨a, _, c, d⟩ := neededBits_spec (Nat.le_add_left 1 _) hle
+  have h3 : k < neededBits (2 ^ k + 1) := by
+    apply Nat.lt_of_not_le
+    intro hcon
+    have : 2 ^ neededBits (2 ^ k + 1) ≤ 2 ^ k := Nat.pow_le_pow_right (by omega) hcon
+    have : 1 ≤ 2 ^ k := Nat.one_le_two_pow
+    omega
+  by_cases hlt : k + 1 < neededBits (2 ^ k + 1)
+  · have := d (k + 1) (by omega) hlt
+    have : 2 ^ (k + 1) = 2 * 2 ^ k := by rw [Nat.pow_succ]; omega
+    have : 1 ≤ 2 ^ k := Nat.one_le_two_pow
+    omega
+  · omega
 
 end BMV.Basm
